@@ -411,6 +411,13 @@ class G:
         elif k == 3:  # exactly at the 18 fractional digit limit
             f = r.choice([17, 18, 19, 20])
             body = self.digits(r.randrange(0, 21)) + "." + self.digits(f)
+        elif k == 4:  # the limits of i128 themselves, as plain integers a fast path may hand to `i128::from_str`: -2^127 is an i128
+            #               but not a Decimal coefficient
+            sign = r.choice(["-", "-", "", "+"])
+            body = "0" * r.choice([0, 0, 0, 1, 5]) + str(r.choice([2 ** 127, 2 ** 127, 2 ** 127 - 1, 2 ** 127 + 1]))
+            if r.random() < 0.8:
+                return sign + body
+            body += r.choice([".", ".0", ""])
         else:
             ip = self.digits(r.randrange(0, 22)) if r.random() < 0.9 else ""
             fp = "." + self.digits(r.randrange(0, 22)) if r.random() < 0.6 else ""
